@@ -623,6 +623,10 @@ def read_zlib_chunks(
         if decomp_obj.unconsumed_tail:
             raise zlib.error("decompressed data exceeds expected size")
         decomp_len += len(decomp)
+        if decomp_len > max_decomp:
+            # Must be caught here: were the loop to go on, the next limit
+            # would be 0, which zlib takes to mean "no limit".
+            raise zlib.error("decompressed data exceeds expected size")
         decomp_chunks.append(decomp)
         unused = decomp_obj.unused_data
         if unused:
@@ -704,6 +708,10 @@ def read_zlib_chunks_at(
                 if decomp_obj.unconsumed_tail:
                     raise zlib.error("decompressed data exceeds expected size")
                 decomp_len += len(decomp)
+                if decomp_len > max_decomp:
+                    # Must be caught here: were the loop to go on, the next
+                    # limit would be 0, which zlib takes to mean "no limit".
+                    raise zlib.error("decompressed data exceeds expected size")
                 decomp_chunks.append(decomp)
                 unused = decomp_obj.unused_data
                 if unused:
